@@ -13,7 +13,7 @@ const CONTENTS: [&str; 5] = ["empty", "sequence", "sequence+choice", "attributes
 fn content_for(kind: &str, i: usize, ns_other_leaf: (&str, &str)) -> (Option<Seq>, Vec<Attr>) {
     let e1 = el(&format!("E{i}a"), TypeRef::b("string"));
     let e2 = el_occ(&format!("E{i}b"), TypeRef::n(ns_other_leaf.0, ns_other_leaf.1), 0, Max::N(1));
-    let attrs = vec![Attr { name: format!("at{i}"), ty: TypeRef::b("int"), required: i % 2 == 0 }];
+    let attrs = vec![Attr { name: format!("at{i}"), ty: TypeRef::b("int"), required: i % 2 == 0, value_constraint: None }];
     match kind {
         "plain" => (Some(Seq::of(vec![e1, el_occ(&format!("E{i}n"), TypeRef::b("long"), 0, Max::Unbounded)])), attrs),
         "empty" => (None, vec![]),
@@ -120,6 +120,57 @@ pub fn cross_namespace_states(tier: &str) -> Vec<State> {
     out
 }
 
+/// Chains over THREE namespaces (start file gamma imports beta imports alpha; acyclic): every
+/// non-increasing placement of T0..Td, own content plain, so each member's namespace is the one of
+/// the schema that declared it however many namespace changes lie between it and the derived type.
+pub fn three_namespace_chains(tier: &str) -> Vec<State> {
+    const NS: [&str; 3] = ["http://zv.example/gamma", "http://zv.example/beta", "http://zv.example/alpha"];
+    const FILE: [&str; 3] = ["g.xsd", "b.xsd", "a.xsd"];
+    let mut out = vec![];
+    let max_d = if tier == "quick" { 2 } else { 3 };
+    for d in 1..=max_d {
+        // placements: ns index of T0 >= ... >= ns index of Td
+        let mut placements: Vec<Vec<usize>> = vec![vec![]];
+        for _ in 0..=d {
+            let mut next = vec![];
+            for p in &placements {
+                let hi = p.last().copied().unwrap_or(2);
+                for k in 0..=hi {
+                    let mut q = p.clone();
+                    q.push(k);
+                    next.push(q);
+                }
+            }
+            placements = next;
+        }
+        for pl in placements {
+            let distinct: std::collections::BTreeSet<usize> = pl.iter().copied().collect();
+            if distinct.len() < 2 || (d == 1 && distinct.len() < 2) {
+                continue;
+            }
+            let mut files: Vec<XsdFile> = (0..3).map(|k| XsdFile { name: FILE[k].into(), tns: NS[k].into(), prefixes: (k..3).map(|j| (format!("n{j}"), NS[j].to_string())).collect(), default_ns: None, imports: vec![], comps: vec![] }).collect();
+            let mut needs = std::collections::BTreeSet::new();
+            for (i, k) in pl.iter().enumerate() {
+                let base = if i == 0 { None } else { Some(QName::new(NS[pl[i - 1]], &format!("T{}", i - 1))) };
+                if i > 0 && pl[i - 1] != *k {
+                    needs.insert((*k, pl[i - 1]));
+                }
+                let (seq, attrs) = content_for("plain", i, (NS_A, "Leaf"));
+                files[*k].comps.push(Comp::Complex(ComplexType { name: format!("T{i}"), doc: None, xmlns: vec![], base, seq, attrs }));
+            }
+            // the start file always reaches every file: gamma -> beta -> alpha
+            needs.insert((0, 1));
+            needs.insert((1, 2));
+            for (from, to) in needs {
+                files[from].imports.push(Import { ns: NS[to].into(), loc: Some(FILE[to].into()) });
+            }
+            let names: Vec<String> = pl.iter().enumerate().map(|(i, k)| format!("T{i}[{}]", ["gamma", "beta", "alpha"][*k])).collect();
+            out.push(State { label: format!("chain3ns {}", names.join(" <- ")), depth: d as u32, set: SchemaSet { files, wsdl: None, start: "g.xsd".into() } });
+        }
+    }
+    out
+}
+
 fn states(tier: &str) -> Vec<State> {
     let mut out = vec![];
     // depth 1 chains (one derivation): full product
@@ -145,7 +196,7 @@ fn states(tier: &str) -> Vec<State> {
     // two base types with ONE local name in the two namespaces, each extended in the start file
     for order in 0..2 {
         let mut s = s0();
-        let base_a = Comp::Complex(ComplexType { name: "Base".into(), seq: Some(Seq::of(vec![el("InA", TypeRef::b("string"))])), attrs: vec![Attr { name: "ka".into(), ty: TypeRef::b("int"), required: false }], ..Default::default() });
+        let base_a = Comp::Complex(ComplexType { name: "Base".into(), seq: Some(Seq::of(vec![el("InA", TypeRef::b("string"))])), attrs: vec![Attr { name: "ka".into(), ty: TypeRef::b("int"), required: false, value_constraint: None }], ..Default::default() });
         let base_b = Comp::Complex(ComplexType { name: "Base".into(), seq: Some(Seq::of(vec![el("InB", TypeRef::b("long")), el("InB2", TypeRef::b("string"))])), attrs: vec![], ..Default::default() });
         let d_a = Comp::Complex(ComplexType { name: "T1".into(), base: Some(QName::new(NS_A, "Base")), seq: Some(Seq::of(vec![el("OwnA", TypeRef::b("string"))])), ..Default::default() });
         let d_b = Comp::Complex(ComplexType { name: "T2".into(), base: Some(QName::new(NS_B, "Base")), seq: Some(Seq::of(vec![el("OwnB", TypeRef::b("string"))])), ..Default::default() });
@@ -160,6 +211,17 @@ fn states(tier: &str) -> Vec<State> {
         }
         out.push(State { label: format!("chain same-local-name bases in both namespaces, order {order}"), depth: 1, set: s });
     }
+    // one file, depth 3 and 4, declared fully base-first and fully derived-first (the deepest nesting of
+    // forward look-ups), in either namespace
+    for d in 3..=4usize {
+        for in_b in [false, true] {
+            for before in [false, true] {
+                let chain: Vec<Link> = (0..=d).map(|i| Link { in_b, before_base: i > 0 && before, content: "sequence+attributes" }).collect();
+                out.push(State { label: label(&chain, false, false), depth: d as u32, set: build(&chain, false, false) });
+            }
+        }
+    }
+    out.extend(three_namespace_chains(tier));
     // longer chains
     let max_d = if tier == "quick" { 2 } else { 4 };
     let contents3 = ["sequence", "attributes", "sequence+attributes"];
@@ -226,7 +288,7 @@ pub fn check(tier: &str) -> i32 {
         rep.sample(json!({"state": st.label, "structs": ex.structs.iter().filter(|s| s.name.starts_with('T') && s.name.len() <= 3).map(|s| format!("{}: {:?}", s.name, s.fields.iter().map(|f| f.ya.rename.clone().unwrap_or_default()).collect::<Vec<_>>())).collect::<Vec<_>>(), "violations": vs.len()}));
         // B importing A back (A always imports B) makes the import graph cyclic: a type of B whose
         // base or member type lives in A is then read before A's components exist
-        let cyclic = !st.set.files[1].imports.is_empty();
+        let cyclic = !st.label.starts_with("chain3ns") && !st.set.files[1].imports.is_empty();
         for v in vs {
             agg.add(v.ctx("layout.cyclic_import", cyclic).case(case_json(st)));
         }
@@ -238,7 +300,7 @@ pub fn check(tier: &str) -> i32 {
     rep.set("max_depth", json!(if tier == "quick" { 2 } else { 4 }));
     rep.set("states_fully_conformant", json!(conformant));
     rep.set("exhaustive", json!(true));
-    rep.set("bound", json!("extension chains of depth 1 (full product: files x declaration order x 5x5 own contents, + fan-out, + forward-lookup decoy) and depth 2 (thorough: up to 4): all file placements x declaration orders with fixed contents, all contents (3 kinds) for two file layouts"));
+    rep.set("bound", json!("extension chains of depth 1 (full product: files x declaration order x 5x5 own contents, + fan-out, + forward-lookup decoy) and depth 2 (thorough: up to 4): all file placements x declaration orders with fixed contents, all contents (3 kinds) for two file layouts; depth 3 and 4 in one file fully base-first and fully derived-first; every acyclic placement of a depth 1-2 (thorough: 3) chain over three namespaces/files"));
     rep.assume("reference model: base members (recursively, base first) then own elements in document order then own attributes (DESIGN 3.6)");
     rep.finish()
 }
